@@ -121,6 +121,11 @@ inline Py_ALWAYS_INLINE T ListGetItemAs(const py::handle& list, const py::ssize_
     }
     return py::reinterpret_steal<T>(item);
 #else
+    // NOTE: the list may have been shrunk by a user callback (e.g., `is_leaf` or a custom flatten
+    // function) since its size was read. `PyList_GET_ITEM` does not check the bounds.
+    if (index < 0 || index >= PyList_GET_SIZE(list.ptr())) [[unlikely]] {
+        throw py::index_error("list index out of range");
+    }
     return py::reinterpret_borrow<T>(PyList_GET_ITEM(list.ptr(), index));
 #endif
 }
